@@ -305,6 +305,14 @@ def freshInjLoose (ρ : Subst) (s : Stmt) : Bool :=
 def d7Class (ρ : Subst) (s : Stmt) : Bool :=
   ρ.any (fun p => (ofKind .alias (names s)).contains p.1 && (baseNames s).contains (norm p.2))
 
+/-- the statement itself has the D7 shape: some FROM alias — written, or the default alias (= bare name) of an un‑aliased
+    table — equals the bare name of (another) table reference of the statement.  Statement‑wide over‑approximation of "in
+    the same FROM scope"; the check pairs it with `implementation = model` -/
+def d7Shape (s : Stmt) : Bool :=
+  let n := names s
+  let bs := ofKind .bare n
+  (ofKind .alias n).any (fun a => bs.contains a) || (ofKind .unaliased n).any (fun u => bs.count u ≥ 2)
+
 /-- aliases may be added: the new aliases are fresh (keys that are not the bare name of an un‑aliased FROM table do nothing) -/
 def addOk (a : Subst) (s : Stmt) : Bool := freshInj a s
 
